@@ -28,7 +28,11 @@ type c07Msg struct {
 	Response bool `json:"response"` // large body travels server -> client
 	K        int  `json:"k"`        // body length = K * maxBody + D
 	D        int  `json:"d"`
-	size     int
+	// Status != 0: the server answers with that service result (bad, uncertain or good
+	// with a sub code) and the full body; the channel reports the status as the error of
+	// the call and still hands the response to the handler
+	Status uint32 `json:"service_result,omitempty"`
+	size   int
 }
 
 type c07Run struct {
@@ -82,6 +86,9 @@ func (r *c07Run) Setup(s *sim.Sim) {
 		if p.Chance(1, 3) || (r.ForC20 && p.Intn(4) != 0) {
 			// a single chunk message with a substantial payload
 			m.K, m.D = 0, 200+p.Intn(r.MaxBody-400)
+		}
+		if p.Chance(1, 6) {
+			m.Status = sim.Pick(p, uint32(ua.StatusBadInternalError), uint32(ua.StatusBadNodeIDUnknown), 0x40000000, 0x00A90000)
 		}
 		r.Msgs = append(r.Msgs, m)
 	}
@@ -222,7 +229,11 @@ func (r *c07Run) Main(s *sim.Sim) {
 			if mi >= 0 && mi < len(r.Msgs) && r.Msgs[mi].Response {
 				n = r.Msgs[mi].size - respBase
 			}
-			resp := &ua.ReadResponse{ResponseHeader: rawRespHeader(wr.RequestHeader.RequestHandle, ua.StatusOK), Results: []*ua.DataValue{{EncodingMask: ua.DataValueValue, Value: ua.MustVariant(fill(g.marker+100, n))}}}
+			st := ua.StatusOK
+			if mi >= 0 && mi < len(r.Msgs) && r.Msgs[mi].Status != 0 {
+				st = ua.StatusCode(r.Msgs[mi].Status)
+			}
+			resp := &ua.ReadResponse{ResponseHeader: rawRespHeader(wr.RequestHeader.RequestHandle, st), Results: []*ua.DataValue{{EncodingMask: ua.DataValueValue, Value: ua.MustVariant(fill(g.marker+100, n))}}}
 			if err := sc.SendResponseWithContext(ctx, msg.RequestID, resp); err != nil {
 				srvResults <- srvGot{err: fmt.Errorf("send response: %w", err)}
 				return
@@ -284,6 +295,10 @@ func (r *c07Run) Main(s *sim.Sim) {
 		})
 		if s.Failed() {
 			return
+		}
+		if m.Status != 0 && err == ua.StatusCode(m.Status) {
+			s.Probe("response-with-service-result-delivered")
+			err = nil // the status the server chose; the body was handed to the handler all the same
 		}
 		if err != nil {
 			s.Fail("C07", "round-trip-failed", sigErr(err), "message %d (%+v, %d byte body, chunk %d, max body %d, %s/%d keys %d/%d) failed: %v", i, m, m.size, r.Chunk, r.MaxBody, r.Cfg.Policy, r.Cfg.Mode, r.Cfg.ClientBits, r.Cfg.ServerBits, err)
